@@ -2,8 +2,10 @@ SPEC = dict(
     props_file="Props/C21.v",
     level="proof",
     observers=[dict(cmd="obs_replica", imports=["Model.Replica"], case_type="Replica.case", check="Replica.check_case",
-                    n={"quick": 600, "thorough": 15000}, shard=100)],
-    rule="every entry point that routes by replica opt-in (Do, DoMulti, DoCache, DoMultiCache, DoStream, DoMultiStream, Receive, Dedicated) "
+                    n={"quick": 1226, "thorough": 15000}, shard=100)],
+    rule="EXHAUSTIVE on every run (976 cases, independent of the seed): DoMulti / DoMultiCache / DoMultiStream in cluster, standalone and sentinel "
+         "mode x batch length 2..3 x every subset of positions opting in x every command keyed on the slot / keyed on another shard's slot (cluster) / "
+         "without key slot; Do / DoCache / DoStream / Receive / Dedicated x opt-in yes/no x keyed / keyless. RANDOM in addition: every entry point that routes by replica opt-in (Do, DoMulti, DoCache, DoMultiCache, DoStream, DoMultiStream, Receive, Dedicated) "
          "in cluster, standalone and sentinel mode, with batches of 1-4 GET / SET / ECHO / PUBLISH in which the command that does not opt in "
          "is keyed or has no key slot and sits first, in the middle or last, two-slot stream batches (panic), predicates by command name / key "
          "hash / keyless-only; plus: SendToReplicas predicates (reads only / all / none / by key hash / absent), ReplicaOnly, node selectors returning -1 … 9 "
